@@ -3437,6 +3437,10 @@ class Inflate(Array):
     def _takediag(self, axis1, axis2):
         assert axis1 < axis2
         if axis2 == self.ndim-1:
+            if any(axis1 in axes and any(axis >= self.ndim-1 for axis in axes) for axes in self.func._diagonals):
+                # Taking `self.dofmap` from a diagonal recreates an inflation
+                # with the same dofmap, resulting in an infinite recursion.
+                return
             func = _take(self.func, self.dofmap, axis1)
             for i in range(self.dofmap.ndim):
                 func = _takediag(func, axis1, axis2+self.dofmap.ndim-1-i)
